@@ -1,0 +1,53 @@
+//go:build verif
+
+package lr1
+
+// Contracts for the deductive checker in /verif (comment-only file; adds no code).
+//
+// ---- precedence resolution (resolveConflicts$1 is the resolveConflict closure) ----
+//
+//@ pure func isSR(a *Action, b *Action) bool = a.Type == ActionShift && b.Type == ActionReduce
+//@ pure func uniform(sh *Action) bool = forall i int :: {sh.Prods[i]} 0 <= i && i < len(sh.Prods) ==> sh.Prods[i].Rule == sh.Prods[0].Rule && sh.Prods[i].Precedence == sh.Prods[0].Precedence
+//@ pure func allAssoc(sh *Action, rd *Action, a Associativity) bool = rd.Prods[0].Associativity == a && forall i int :: {sh.Prods[i]} 0 <= i && i < len(sh.Prods) ==> sh.Prods[i].Associativity == a
+//@ pure func resolvable(sh *Action, rd *Action) bool = len(sh.Prods) > 0 && uniform(sh) && sh.Prods[0].Rule == rd.Prods[0].Rule && sh.Prods[0].Precedence > 0 && rd.Prods[0].Precedence > 0
+//@ pure func wfAction(a *Action) bool = !isnil(a) && (forall i int :: {a.Prods[i]} 0 <= i && i < len(a.Prods) ==> !isnil(a.Prods[i])) && (a.Type == ActionReduce ==> len(a.Prods) == 1)
+//
+// remove(action): the closure deletes every occurrence of action from the cell.
+//@ func resolveConflicts$1$1
+//@   requires !isnil(actions) && len(actions.elems) == 2 && actions.elems[0] != actions.elems[1]
+//@   requires action == actions.elems[0] || action == actions.elems[1]
+//@   ensures len(actions.elems) == 1 && actions.elems[0] == ite(action == old(actions.elems[0]), old(actions.elems[1]), old(actions.elems[0]))
+//@   modifies actions.elems, actions.elems[0:2]
+//   slices.DeleteFunc with the predicate "a == action", on a two-element slice
+//@   call Array.DeleteFunc 0 modifies actions.elems, actions.elems[0:2]
+//@   call Array.DeleteFunc 0 assume len(actions.elems) == 1 && actions.elems[0] == ite(action == old(actions.elems[0]), old(actions.elems[1]), old(actions.elems[0]))
+//
+//@ func resolveConflicts$1
+//@   requires !isnil(actions)
+//@   requires forall k int :: {actions.elems[k]} 0 <= k && k < len(actions.elems) ==> wfAction(actions.elems[k])
+//@   requires len(actions.elems) == 2 ==> actions.elems[0] != actions.elems[1]
+//@   let a0 = old(actions.elems[0])
+//@   let a1 = old(actions.elems[1])
+//@   let shape = old(len(actions.elems)) == 2 && (isSR(a0, a1) || isSR(a1, a0))
+//@   let sh = ite(isSR(a0, a1), a0, a1)
+//@   let rd = ite(isSR(a0, a1), a1, a0)
+//@   let sp = sh.Prods[0].Precedence
+//@   let rp = rd.Prods[0].Precedence
+//   a conflict is settled exactly for one shift against one reduce, all productions in one rule, all with explicit precedence
+//@   ensures result <==> (shape && resolvable(sh, rd))
+//@   ensures !result ==> actions.elems == old(actions.elems)
+//@   ensures result ==> len(actions.elems) == 1
+//   higher level wins
+//@   ensures (result && sp > rp) ==> actions.elems[0] == sh
+//@   ensures (result && sp < rp) ==> actions.elems[0] == rd
+//   same level: @left reduces, @right shifts
+//@   ensures (result && sp == rp && allAssoc(sh, rd, Left)) ==> actions.elems[0] == rd
+//@   ensures (result && sp == rp && allAssoc(sh, rd, Right)) ==> actions.elems[0] == sh
+//@   modifies actions.elems, actions.elems[0:2]
+//@   loop 0 invariant -1 <= rangeindex && (rangeindex < len(shift.Prods) || (len(shift.Prods) == 0 && rangeindex == -1))
+//@   loop 0 invariant actions == old(actions) && actions.elems == old(actions.elems) && shift == sh && reduce == rd && shape
+//@   loop 0 invariant unchangedOld(fields(Action)) && unchangedOld(fields(Prod)) && unchangedOld(elems(*Prod)) && unchangedOld(elems(*Action)) && unchangedOld(fields(array.Array[*Action]))
+//@   loop 0 invariant rangeindex >= 0 ==> shiftRule == sh.Prods[0].Rule && shiftPrec == sh.Prods[0].Precedence
+//@   loop 0 invariant forall i int :: {sh.Prods[i]} 0 <= i && i <= rangeindex ==> sh.Prods[i].Rule == sh.Prods[0].Rule && sh.Prods[i].Precedence == sh.Prods[0].Precedence
+//@   loop 0 invariant rangeindex == -1 ==> isnil(shiftRule) && shiftPrec == 0
+//@   loop 0 decreases len(shift.Prods) - rangeindex
